@@ -135,9 +135,9 @@ func Components10() (int64, string) {
 // ---- part 2: copy-on-derive ------------------------------------------------------------------
 
 type SetRecipe struct {
-	Base     int      `json:"base"`      // index into NamedSets, or -1 for NewPercentEncodeSet(AllBelow, Init...)
-	AllBelow int32    `json:"all_below"` // only for Base == -1
-	Init     []uint   `json:"init,omitempty"`
+	Base     int       `json:"base"`      // index into NamedSets, or -1 for NewPercentEncodeSet(AllBelow, Init...)
+	AllBelow int32     `json:"all_below"` // only for Base == -1
+	Init     []uint    `json:"init,omitempty"`
 	Steps    []SetStep `json:"steps"`
 }
 
